@@ -9,11 +9,11 @@ use crate::rng::mix;
 fn plan(prop: &str, tier: &str) -> Vec<(&'static str, usize)> {
     let t = tier == "thorough";
     match prop {
-        "C01" => vec![("c01", if t { 1500 } else { 140 }), ("c01bulk", if t { 24 } else { 3 })],
-        "C05" => vec![("c05", if t { 1500 } else { 160 }), ("c01bulk", if t { 8 } else { 1 })],
-        "C07" => vec![("c07", if t { 1500 } else { 160 })],
-        "C08" => vec![("c08", if t { 2000 } else { 200 })],
-        "C09" => vec![("c09", if t { 2000 } else { 200 })],
+        "C01" => vec![("c01", if t { 3000 } else { 400 }), ("c01dense", if t { 3000 } else { 400 }), ("c01bulk", if t { 24 } else { 3 })],
+        "C05" => vec![("c05", if t { 4000 } else { 600 }), ("c01bulk", if t { 8 } else { 1 })],
+        "C07" => vec![("c07", if t { 4000 } else { 600 })],
+        "C08" => vec![("c08", if t { 6000 } else { 800 })],
+        "C09" => vec![("c09", if t { 6000 } else { 800 })],
         _ => vec![],
     }
 }
